@@ -259,6 +259,11 @@ def part_inprocess(ctx, quick):
         args = [r.choice(TEXTS) for _ in range(k)]
         s = r.choice(TEXTS)
         one(ctx, r.choice(["concat", "concat_ws", "coalesce"]), s, args)
+    # CONCAT_WS / CONCAT with empty values among the joined ones: every value counts, also an empty one (`a--b`, `/x`, `a-`)
+    for _ in range(30 if quick else 300):
+        vals = [r.choice(["", "", "a", "b c", " ", "é"]) for _ in range(r.range(2, 4))]
+        ctx.count("concat_with_empty_values")
+        one(ctx, r.choice(["concat_ws", "concat_ws", "concat"]), r.choice(["-", "/", "", ", ", "|"]), vals)
     # COALESCE: "first non-empty" — a value made of blanks only is not empty; empty values before and after it
     blanks = ["", " ", "  ", "\t", " \n", "x", "", " a "]
     for _ in range(40 if quick else 400):
